@@ -101,18 +101,22 @@ def wfParamNames (t : Tree) : Bool :=
     passes; the generator tells the two parameters apart with a `_` suffix) -/
 def wfFieldNames (t : Tree) : Bool := ((visibleLeaves t).map (fun l => l.info.name)).Nodup
 
+/-- no two members of the struct share a name at the same positive depth (Go: no ambiguous selector; since 556fe6f the
+    generator leaves such fields out, `Proofs/CtorAmb.lean`) -/
+def noAmbiguous (t : Tree) : Bool := ((members 0 t).filter (fun m => decide (0 < m.2))).Nodup
+
 def skipWithDef (t : Tree) : Bool := (leavesTop t).any (fun l => l.top && l.info.skip && l.info.defv ≠ "")
 
 def WF (t : Tree) : Bool :=
   wfLevels t && wfParamNames t && !skipWithDef t
 
 def region (t : Tree) : String :=
-  if !wfLevels t || !wfParamNames t || skipWithDef t then "Out"
+  if !wfLevels t || !wfParamNames t || skipWithDef t || !noAmbiguous t then "Out"
   else "WF"
 
 /-- the constructor's own region: parameter-name collisions are inside (C02_value_at_path_general) -/
 def regionG (t : Tree) : String :=
-  if !wfLevels t || !wfFieldNames t then "Out"
+  if !wfLevels t || !wfFieldNames t || !noAmbiguous t then "Out"
   else if skipWithDef t then "F_skipWithDef"   -- a left-out field that carries `def=`: the code drops the default
   else "WF"
 
